@@ -345,6 +345,16 @@ func (n *lazyNode) isNull() bool {
 }
 
 func (n *lazyNode) equal(o *lazyNode) bool {
+	if o == nil {
+		return n.which == eRaw && n.isNull()
+	}
+
+	nNull := n.which == eRaw && n.isNull()
+	oNull := o.which == eRaw && o.isNull()
+	if nNull || oNull {
+		return nNull && oNull
+	}
+
 	if n.which == eRaw {
 		if !n.tryDoc() && !n.tryAry() {
 			if o.which != eRaw {
@@ -422,7 +432,17 @@ func (n *lazyNode) equal(o *lazyNode) bool {
 	}
 
 	for idx, val := range n.ary.nodes {
-		if !val.equal(o.ary.nodes[idx]) {
+		oval := o.ary.nodes[idx]
+
+		if (val == nil) != (oval == nil) {
+			return false
+		}
+
+		if val == nil {
+			continue
+		}
+
+		if !val.equal(oval) {
 			return false
 		}
 	}
